@@ -248,7 +248,7 @@ def run(ck: Check):
     # converted stacks whose layers hand each other their eval outputs: a Walsh layer in front of a raw one (the raw einsum needs its
     # operands in one dtype), a frozen thermometer in front of a raw convolution.  Eval must run and equal the float32 model
     from torchlogix.layers import LearnableThermometerThresholding as _LT3
-    for front in ("walsh-conv", "walsh-dense", "frozen-thermometer"):
+    for front in ("walsh-conv", "walsh-dense", "frozen-thermometer", "raw-dense-to-conv"):
         for dt in (torch.float64, torch.bfloat16, torch.float16):
             torch.manual_seed(ck.seed + 25)
             if front == "walsh-conv":
@@ -259,6 +259,10 @@ def run(ck: Check):
             elif front == "walsh-dense":
                 base = torch.nn.Sequential(LogicDense(6, 8, device="cpu", parametrization="walsh", weight_init="random"),
                                            LogicDense(8, 6, device="cpu", weight_init="random"))
+                x = (torch.rand(8, 6) > 0.5).float()
+            elif front == "raw-dense-to-conv":
+                base = torch.nn.Sequential(LogicDense(6, 9, device="cpu", weight_init="random"), torch.nn.Unflatten(1, (1, 3, 3)),
+                                           LogicConv2d(in_dim=(3, 3), device="cpu", channels=1, num_kernels=2, tree_depth=1, receptive_field_size=2, weight_init="random"))
                 x = (torch.rand(8, 6) > 0.5).float()
             else:
                 th = _LT3([0.25, 0.5, 0.75])
